@@ -47,6 +47,21 @@ UNMODELLED_CTORS = {
 }
 
 
+class UnmodelledConstruct(AnalysisError):
+    """a construct class outside the modelled fragment (carries its name)"""
+
+    def __init__(self, name, where):
+        super().__init__(f"construct.{name} is outside the modelled fragment ({where})")
+        self.name = name
+
+
+class Closure:
+    def __init__(self, node, env, mod):
+        self.node = node
+        self.env = env
+        self.mod = mod
+
+
 class This:
     def __init__(self, ups=0, names=()):
         self.ups = ups
@@ -171,6 +186,8 @@ class LayoutEval:
                 return ("class", r.mod, r.node)
             if r.kind == "func":
                 return ("func", r.func)
+            if node.id in ("max", "min", "len", "int"):
+                return ("builtin", node.id)
             raise AnalysisError(f"cannot resolve name {node.id!r} in {mod.name}")
         if isinstance(node, ast.Attribute):
             v = self.ev(node.value, mod, local)
@@ -258,7 +275,7 @@ class LayoutEval:
         if isinstance(node, ast.Call):
             return self.call(node, mod, local)
         if isinstance(node, ast.Lambda):
-            return ("lambda", node, mod)
+            return Closure(node, dict(local), mod)
         raise AnalysisError(f"unmodelled layout expression: {norm(node)[:120]} ({mod.name})")
 
     def external(self, fq):
@@ -286,6 +303,9 @@ class LayoutEval:
         raise AnalysisError(f"expected a construct, got {v!r} in {norm(node)[:100]}")
 
     def num(self, v):
+        if isinstance(v, Closure):
+            # a context lambda / function used as a length: evaluate it on the symbolic context
+            return self.num(self.call_closure(v, [This()], {}))
         if isinstance(v, This):
             if not v.names:
                 raise AnalysisError("bare `this` used as a number")
@@ -308,6 +328,8 @@ class LayoutEval:
                 kwargs.update(v)
             else:
                 kwargs[k.arg] = self.ev(k.value, mod, local)
+        if isinstance(f, Closure):
+            return self.call_closure(f, args, kwargs)
         if isinstance(f, tuple):
             if f[0] == "sizeof":
                 sz = self.static_size(f[1])
@@ -315,7 +337,14 @@ class LayoutEval:
             if f[0] == "dictget":
                 return f[1].get(args[0], args[1] if len(args) > 1 else None)
             if f[0] == "ctor_unmodelled":
-                raise AnalysisError(f"construct.{f[1]} is outside the modelled fragment ({mod.name})")
+                raise UnmodelledConstruct(f[1], mod.name)
+            if f[0] == "builtin" and f[1] in ("max", "min"):
+                vals = args[0] if len(args) == 1 and isinstance(args[0], list) else args
+                if all(isinstance(x, (int, float)) and not isinstance(x, bool) for x in vals):
+                    return {"max": max, "min": min}[f[1]](vals)
+                return Poly.func(f[1], [self.num(x) for x in vals])
+            if f[0] == "func":
+                return self.call_function(f[1], args, kwargs)
             if f[0] == "ctor":
                 return self.ctor(f[1], args, kwargs, node)
             if f[0] == "class":
@@ -323,6 +352,58 @@ class LayoutEval:
             if f[0] == "ext":
                 return ("extcall", f[1], tuple(repr(a) for a in args))
         raise AnalysisError(f"unmodelled call in layout: {norm(node)[:120]} ({mod.name})")
+
+    # ------------------------------------------------- helper functions of the layouts
+    def call_function(self, fi, args, kwargs):
+        """a repository function used while building a layout (e.g. a padding helper): interpret it"""
+        return self.call_closure(Closure(fi.node, {}, fi.module), args, kwargs)
+
+    def call_closure(self, cl, args, kwargs):
+        node = cl.node
+        a = node.args
+        pos = [x.arg for x in a.posonlyargs + a.args]
+        defaults = [None] * (len(pos) - len(a.defaults)) + list(a.defaults)
+        local = dict(cl.env)
+        for i, p in enumerate(pos):
+            if i < len(args):
+                local[p] = args[i]
+            elif p in kwargs:
+                local[p] = kwargs[p]
+            elif defaults[i] is not None:
+                local[p] = self.ev(defaults[i], cl.mod, cl.env)
+            else:
+                raise AnalysisError(f"missing argument {p} in a layout helper call")
+        for p, d in zip(a.kwonlyargs, a.kw_defaults):
+            if p.arg in kwargs:
+                local[p.arg] = kwargs[p.arg]
+            elif d is not None:
+                local[p.arg] = self.ev(d, cl.mod, cl.env)
+        if isinstance(node, ast.Lambda):
+            return self.ev(node.body, cl.mod, local)
+        return self._exec_helper(node.body, cl.mod, local)
+
+    def _exec_helper(self, body, mod, local):
+        for st in body:
+            if isinstance(st, ast.Expr) and isinstance(st.value, ast.Constant):
+                continue
+            if isinstance(st, ast.FunctionDef):
+                local[st.name] = Closure(st, local, mod)
+                continue
+            if isinstance(st, ast.Assign) and len(st.targets) == 1 and isinstance(st.targets[0], ast.Name):
+                local[st.targets[0].id] = self.ev(st.value, mod, local)
+                continue
+            if isinstance(st, ast.Return):
+                return self.ev(st.value, mod, local) if st.value is not None else None
+            if isinstance(st, ast.If):
+                test = self.ev(st.test, mod, local)
+                if not isinstance(test, bool):
+                    raise AnalysisError(f"layout helper: undecidable branch {norm(st.test)}")
+                r = self._exec_helper(st.body if test else st.orelse, mod, local)
+                if r is not None:
+                    return r
+                continue
+            raise AnalysisError(f"layout helper: unmodelled statement {norm(st)[:80]}")
+        return None
 
     @staticmethod
     def _is_super_init(node):
@@ -485,7 +566,7 @@ class LayoutEval:
     def _rebase(self, poly, ctxpath, values, where):
         """replace this^k:a.b symbols by absolute paths / known values"""
         mapping = {}
-        for s in poly.symbols():
+        for s in poly.plain_symbols():
             m = _THIS_RE.match(s)
             if not m:
                 continue
